@@ -57,6 +57,7 @@ class Recorder:
         self.raised = []
         self.once = set(plan.get("once", ()))
         self.persist = {(k, l) for k, l in plan.get("persist", ())}
+        self.evict = {(k, l) for k, l in plan.get("evict", ())}
 
     def hook(self, kind, node, arg):
         label = self.labels.label(node)
@@ -73,6 +74,12 @@ class Recorder:
         if self.count in self.once or (kind, label) in self.persist:
             self.raised.append(self.count)
             raise Veto(kind, label, self.count)
+        if (kind, label) in self.evict and not kind.endswith("_children"):
+            # a hook that itself changes the tree (e.g. 'the newcomer evicts the first child'): once per call
+            self.evict.discard((kind, label))
+            victim = next((c for c in arg.children if c is not node), None)
+            if victim is not None:
+                victim.parent = None
 
 
 CURRENT = [None]  # process-local; replaced at the start of every case
@@ -235,19 +242,23 @@ def snapshot(universe, labels):
     return [[labels.label(n.parent), [labels.label(c) for c in n.children]] for n in universe]
 
 
+def create_nodes(classes):
+    universe = []
+    for i, clsname in enumerate(classes):
+        if clsname in ("HSymlinkU", "SymlinkNodeU"):
+            target = universe[i - 1] if i else Node("target-of-0")
+            universe.append((HSymlink if clsname == "HSymlinkU" else SymlinkNode)(target))
+        else:
+            universe.append(CLASSES[clsname][0](i))
+    return universe
+
+
 def make_universe(spec, state, route="parent", take_snapshots=False):
     """Create the recorder and the nodes of a labelled forest state."""
     rec = Recorder(take_snapshots)
     CURRENT[0] = rec
     n = len(state)
-    classes = class_list(spec, n)
-    universe = []
-    for i in range(n):
-        if classes[i] in ("HSymlinkU", "SymlinkNodeU"):
-            target = universe[i - 1] if i else Node("target-of-0")
-            universe.append((HSymlink if classes[i] == "HSymlinkU" else SymlinkNode)(target))
-        else:
-            universe.append(CLASSES[classes[i]][0](i))
+    universe = create_nodes(class_list(spec, n))
     for node in universe:
         rec.labels.add(node)
     rec.universe = universe
@@ -713,7 +724,10 @@ def history_strategy(max_nodes=7, max_steps=30, faults="none", invalid=False, cl
             once = st.lists(st.integers(1, 14), min_size=1, max_size=2, unique=True).map(lambda ks: {"once": sorted(ks)})
             persist = st.lists(st.tuples(st.sampled_from(list(hooks)), idx).map(list), min_size=1, max_size=3).map(lambda ps: {"persist": ps})
             readonly = st.just({"persist": [[h, i] for i in range(n) for h in ("pre_detach", "pre_attach")]})
-            plan = st.one_of(st.just({}), st.just({}), once, once, persist, readonly)
+            plans = [st.just({}), st.just({}), once, once, persist, readonly]
+            if faults == "all+evict":
+                plans.append(st.lists(st.tuples(st.sampled_from(["pre_detach", "post_detach", "pre_attach", "post_attach"]), idx).map(list), min_size=1, max_size=2).map(lambda ps: {"evict": ps}))
+            plan = st.one_of(*plans)
         steps = draw(st.lists(st.tuples(op, plan).map(lambda t: {"op": t[0], "plan": t[1]}), min_size=1, max_size=max_steps))
         case = {"cls": spec_, "n": n, "steps": steps}
         # initial forest: all roots, or a random forest (star-biased half of the time so wide nodes are common)
@@ -785,7 +799,7 @@ def dry_log(base, op, plan):
     return log
 
 
-def enum_fault_cases(cls, n, index, count, fault_hooks=(), pairs=False, persist=True, readonly=True, invalid=False, maxlen=None, routes=None):
+def enum_fault_cases(cls, n, index, count, fault_hooks=(), pairs=False, persist=True, readonly=True, invalid=False, maxlen=None, routes=None, evict=False):
     """Single-step cases: every forest x build route x call x fault position of this shard."""
     family = family_of(cls)
     fault_hooks = set(fault_hooks)
@@ -827,5 +841,41 @@ def enum_fault_cases(cls, n, index, count, fault_hooks=(), pairs=False, persist=
                 for kind, label in seen:
                     if kind in fault_hooks and isinstance(label, int):
                         yield dict(base, steps=[{"op": op, "plan": {"persist": [[kind, label]]}}])
+            if evict:
+                for kind, label in seen:
+                    if kind in ("pre_detach", "post_detach", "pre_attach", "post_attach") and isinstance(label, int):
+                        yield dict(base, steps=[{"op": op, "plan": {"evict": [[kind, label]]}}])
             if readonly:
                 yield dict(base, steps=[{"op": op, "plan": {"persist": [[h, i] for i in range(n) for h in ("pre_detach", "pre_attach")]}}])
+
+
+# ---------------------------------------------------------------------------
+# blind histories: no read of the forest between the calls
+
+def run_blind(case):
+    """Execute a fault-free history from the all-roots forest WITHOUT reading .parent/.children in between
+    (reads may create lazily built internal state and so repair or mask a slip).  Returns (records, universe, rec)
+    with records = [(op, exception or None, hook log)]."""
+    n = case["n"]
+    rec = Recorder()
+    CURRENT[0] = rec
+    universe = create_nodes(class_list(case["cls"], n))
+    for node in universe:
+        rec.labels.add(node)
+    rec.universe = universe
+    records = []
+    for item in case["steps"]:
+        rec.begin_call(item.get("plan"))
+        exc = execute(universe, item["op"])
+        records.append((item["op"], exc, rec.log))
+        rec.begin_call(None)
+    return records, universe, rec
+
+
+def blind_sequences(spec, n, length, index, count):
+    ops = [op for op in calls_for(n, "NM", invalid=False)]
+    k = 0
+    for seq in itertools.product(ops, repeat=length):
+        k += 1
+        if k % count == index:
+            yield {"kind": "blind", "cls": spec, "n": n, "steps": [{"op": op} for op in seq]}
